@@ -157,7 +157,7 @@ def main(pid="C05", rep=None, finish=True):
         if not r.ok:
             raise tlc.TLCError("design variant of CertAuth violates %s" % r.violated)
         dev = tlc.expect_caught("MC_CertAuth", "MC_CertAuth.cfg", {"DevMatchRawPath": ["AppliedToServed"],
-                                "DevEmptyListMeansNoList": ["AppliedToServed"], "DevClimbAndReturn": ["AppliedToServed"]}, timeout=600)
+                                "DevEmptyListMeansNoList": ["AppliedToServed"], "DevClimbAndReturn": ["AppliedToServed"], "DevIndexNotJudged": ["AppliedToServed"]}, timeout=600)
         rep.set("deviation_selftests", [{"deviation": d, "caught_by": c} for d, c, _ in dev])
         for d, c, v in dev:
             if c is None:
